@@ -97,19 +97,27 @@ structure Pass (σ W : Type) where
   st : σ
   /-- what `do` returns, or the value `resp` holds when the loop goes round again -/
   out : Final ⊕ Option Resp
+  /-- the response in `out` still HOLDS what its attempt buffered: `resp.body` (Bytes/String),
+  `resp.result` / `resp.error` (SuccessResult/ErrorResult), and — through `resp.Request` — the
+  dump buffer and the trace of that attempt.  The clean-up before a retry wipes all four. -/
+  held : Bool
 
 /-- The end of a pass that retries: `GetRetryInterval(resp, RetryAttempt)` — the function
 installed NOW — then `resp.body = nil` and the wait (`select` on the context and the timer). -/
-def waitStage {σ W : Type} (ed : Edits) (o : Outcome) (ra : Nat) (view : RespView) (resp : Option Resp)
+def waitStage {σ W : Type} (v : Variant) (ed : Edits) (o : Outcome) (ra : Nat) (view : RespView) (resp : Option Resp)
     (ev : List (Event W)) (d3 : Dyn) (st2 : σ) : Pass σ W :=
   let iev : Event W := .interval d3.interval (ra + 1) view
   let d4 := applyEv ed d3 iev
   match resp with
-  | none => ⟨ev ++ [iev], d4, ra + 1, st2, .inl .panic⟩
+  | none => ⟨ev ++ [iev], d4, ra + 1, st2, .inl .panic, false⟩
   | some r =>
     if o.ctxDone || d4.ctxDone then
-      ⟨ev ++ [iev], d4, ra + 1, st2, .inl (.done (some { r with err := some (ra, .waitCtx) }) (some (ra, .waitCtx)))⟩
-    else ⟨ev ++ [iev], d4, ra + 1, st2, .inr (some r)⟩
+      -- `case <-r.Context().Done(): … return`: the response goes back to the caller as it is NOW —
+      -- intact iff the clean-up has not run yet
+      ⟨ev ++ [iev], d4, ra + 1, st2,
+        .inl (.done (some { r with err := some (ra, .waitCtx) }) (some (ra, .waitCtx))), v.wipeAfterWait⟩
+    -- `case <-timer.C:` then the clean-up: the response the next pass starts with is wiped
+    else ⟨ev ++ [iev], d4, ra + 1, st2, .inr (some r), false⟩
 
 /-- "check retry whether is needed": the default rule, overridden by the conditions (asked
 last to first until one says yes). -/
@@ -126,21 +134,23 @@ def hookState {σ : Type} (p : Policy σ) (ra : Nat) (view : RespView) (err : Op
 
 /-- The part of a pass after the "absolutely cannot retry" test: conditions,
 `RetryAttempt++`, hooks (last to first), then `waitStage`. -/
-def retryStage {σ W : Type} (p : Policy σ) (ed : Edits) (o : Outcome) (ra : Nat) (view : RespView)
+def retryStage {σ W : Type} (v : Variant) (p : Policy σ) (ed : Edits) (o : Outcome) (ra : Nat) (view : RespView)
     (resp : Option Resp) (err : Option Err) (ev0 : List (Event W)) (d1 : Dyn) (st1 : σ) : Pass σ W :=
   let c := askConds (W := W) p ra view err
   let d2 := editsOf ed d1 c.1
-  if c.2 = false then ⟨ev0 ++ c.1, d2, ra, st1, .inl (.done resp err)⟩
+  if c.2 = false then ⟨ev0 ++ c.1, d2, ra, st1, .inl (.done resp err), true⟩
   else
     let hev := hookEvs (W := W) p ra view err
-    waitStage ed o ra view resp (ev0 ++ c.1 ++ hev) (editsOf ed d2 hev) (hookState p ra view err st1)
+    waitStage v ed o ra view resp (ev0 ++ c.1 ++ hev) (editsOf ed d2 hev) (hookState p ra view err st1)
 
 /-- One pass through the body of the `for` loop of `Request.do`, the mutable part threaded
 through exactly where the code re-reads it.  Same statements as `Req.Retry.iteration`. -/
 def diteration {σ W : Type} (v : Variant) (p : Policy σ) (ed : Edits) (mw : Nat → σ → σ × W)
     (su : σ → Bool) (o : Outcome) (ra : Nat) (st : σ) (d : Dyn) (prev : Option Resp) : Pass σ W :=
   if o = .beforeErr then
-    ⟨[.before ra], d, ra, st, .inl (.done prev (some (ra, .before)))⟩
+    -- a request middleware failed: `resp` is still what the previous pass left — nothing on the
+    -- first pass, the previous attempt's response after its clean-up otherwise
+    ⟨[.before ra], d, ra, st, .inl (.done prev (some (ra, .before))), false⟩
   else
     let m := mw ra st
     let rt := roundTrip v ra o
@@ -149,11 +159,11 @@ def diteration {σ W : Type} (v : Variant) (p : Policy σ) (ed : Edits) (mw : Na
     let ev0 := [Event.before ra, .wire ra m.2] ++ a.1
     -- the request-level response middleware has run: this is what the check reads
     let d1 := editsOf ed d a.1
-    if a.2.2 then ⟨ev0, d1, ra, m.1, .inl (.done rt.1 a.2.1)⟩
-    else if cannotRetry (withDyn p d1) o ra then ⟨ev0, d1, ra, m.1, .inl (.done rt.1 a.2.1)⟩
+    if a.2.2 then ⟨ev0, d1, ra, m.1, .inl (.done rt.1 a.2.1), true⟩
+    else if cannotRetry (withDyn p d1) o ra then ⟨ev0, d1, ra, m.1, .inl (.done rt.1 a.2.1), true⟩
     -- C10-8: the body this attempt has just read cannot be sent again (`su`: stop, unreplayable)
-    else if su m.1 then ⟨ev0, d1, ra, m.1, .inl (.done rt.1 a.2.1)⟩
-    else retryStage p ed o ra view rt.1 a.2.1 ev0 d1 m.1
+    else if su m.1 then ⟨ev0, d1, ra, m.1, .inl (.done rt.1 a.2.1), true⟩
+    else retryStage v p ed o ra view rt.1 a.2.1 ev0 d1 m.1
 
 /-- Where a call of `do` leaves the request. -/
 structure End (σ : Type) where
@@ -162,15 +172,17 @@ structure End (σ : Type) where
   dyn : Dyn
   /-- the outcomes the call did not consume -/
   rest : List Outcome
+  /-- the returned response holds what its attempt buffered (`Pass.held` of the last pass) -/
+  held : Bool
 
 /-- The `for` loop. -/
 def dloop {σ W : Type} (v : Variant) (p : Policy σ) (ed : Edits) (mw : Nat → σ → σ × W) (su : σ → Bool) :
     List Outcome → Nat → σ → Dyn → Option Resp → List (Event W) × Final × End σ
-  | [], ra, st, d, _ => ([], .exhausted, ⟨ra, st, d, []⟩)
+  | [], ra, st, d, _ => ([], .exhausted, ⟨ra, st, d, [], false⟩)
   | o :: rest, ra, st, d, prev =>
     let r := diteration v p ed mw su o ra st d prev
     match r.out with
-    | .inl fin => (r.events, fin, ⟨r.ra, r.st, r.dyn, rest⟩)
+    | .inl fin => (r.events, fin, ⟨r.ra, r.st, r.dyn, rest, r.held⟩)
     | .inr prev' =>
       let t := dloop v p ed mw su rest r.ra r.st r.dyn prev'
       (r.events ++ t.1, t.2)
@@ -179,24 +191,24 @@ def dloop {σ W : Type} (v : Variant) (p : Policy σ) (ed : Edits) (mw : Nat →
 def dsend {σ W : Type} (v : Variant) (p : Policy σ) (ed : Edits) (mw : Nat → σ → σ × W)
     (unreplayable : σ → Bool) (script : List Outcome) (ra : Nat) (st : σ) (d : Dyn) :
     List (Event W) × Final × End σ :=
-  if d.enabled && d.maxRetries != 0 && unreplayable st then ([], .refused, ⟨ra, st, d, script⟩)
+  if d.enabled && d.maxRetries != 0 && unreplayable st then ([], .refused, ⟨ra, st, d, script, false⟩)
   else dloop v p ed mw (fun s => v.loopRefuse && unreplayable s) script ra st d none
 
 /-- The further `Do` calls on the same `Request`: for every element of `again` the caller's
 setter calls (on a fresh context) followed by another `Do`. -/
 def dresends {σ W : Type} (v : Variant) (p : Policy σ) (ed : Edits) (mw : Nat → σ → σ × W)
-    (unreplayable : σ → Bool) : List (List Edit) → End σ → List (List (Event W) × Final)
+    (unreplayable : σ → Bool) : List (List Edit) → End σ → List (List (Event W) × Final × Bool)
   | [], _ => []
   | es :: more, e =>
     let d := es.foldl (fun d x => x.apply d) { e.dyn with ctxDone := false }
     let r := dsend v p ed mw unreplayable e.rest e.ra e.st d
-    (r.1, r.2.1) :: dresends v p ed mw unreplayable more r.2.2
+    (r.1, r.2.1, r.2.2.held) :: dresends v p ed mw unreplayable more r.2.2
 
 /-- A sequence of `Do` calls on the same `Request`. -/
 def dsends {σ W : Type} (v : Variant) (p : Policy σ) (ed : Edits) (mw : Nat → σ → σ × W)
     (unreplayable : σ → Bool) (again : List (List Edit)) (script : List Outcome) (ra : Nat) (st : σ)
-    (d : Dyn) : List (List (Event W) × Final) :=
+    (d : Dyn) : List (List (Event W) × Final × Bool) :=
   let r := dsend v p ed mw unreplayable script ra st d
-  (r.1, r.2.1) :: dresends v p ed mw unreplayable again r.2.2
+  (r.1, r.2.1, r.2.2.held) :: dresends v p ed mw unreplayable again r.2.2
 
 end Req.RetryDyn
